@@ -228,6 +228,53 @@ pub fn eval(e: &syn::Expr, env: &Env) -> String {
     }
 }
 
+/// the expression tree of a generated initialiser, as far as the composite arms of `value_to_tokens` build it
+/// (newtype wrappers, `T::new(..)`, `T::alt(..)`, `vec![..]`); everything else is a leaf and is read by `eval`
+pub fn shape(e: &syn::Expr, env: &Env) -> String {
+    use syn::Expr;
+    let leaf = |e: &Expr| format!("( lit {} )", eval(e, env));
+    match e {
+        Expr::Paren(p) => shape(&p.expr, env),
+        Expr::Group(g) => shape(&g.expr, env),
+        Expr::Closure(c) => shape(&c.body, env),
+        Expr::Block(b) if b.block.stmts.len() == 1 => match &b.block.stmts[0] {
+            syn::Stmt::Expr(x, _) => shape(x, env),
+            _ => leaf(e),
+        },
+        Expr::Macro(m) if path_str(&m.mac.path).ends_with("vec") => {
+            match m.mac.parse_body_with(syn::punctuated::Punctuated::<Expr, syn::Token![,]>::parse_terminated) {
+                Ok(items) => format!("( vec {} )", sx_list(items.iter().map(|x| shape(x, env)))),
+                Err(_) => leaf(e),
+            }
+        }
+        Expr::Call(c) => {
+            if let Expr::Path(p) = &*c.func {
+                if p.qself.is_none() {
+                    let segs: Vec<String> = p.path.segments.iter().map(|s| s.ident.to_string()).collect();
+                    let args: Vec<&Expr> = c.args.iter().collect();
+                    if path_str(&p.path) == "LazyLock::new" && args.len() == 1 {
+                        return shape(args[0], env);
+                    }
+                    let upper = |s: &String| s.starts_with(|ch: char| ch.is_ascii_uppercase());
+                    let builtin = ["Integer", "Oid", "ObjectIdentifier", "String", "OctetString", "BitString", "Utf8String"];
+                    if segs.len() == 1 && args.len() == 1 && upper(&segs[0]) {
+                        return format!("( wrap {} {} )", hex(&segs[0]), shape(args[0], env));
+                    }
+                    if segs.len() == 2 && segs[1] == "new" && upper(&segs[0]) && !builtin.contains(&segs[0].as_str()) {
+                        return format!("( new {} {} )", hex(&segs[0]), sx_list(args.iter().map(|x| shape(x, env))));
+                    }
+                    let constructor_like = ["new", "from", "try_from", "from_str", "const_new", "parse"];
+                    if segs.len() == 2 && args.len() == 1 && upper(&segs[0]) && !constructor_like.contains(&segs[1].as_str()) && !builtin.contains(&segs[0].as_str()) {
+                        return format!("( variant {} {} {} )", hex(&segs[0]), hex(&segs[1]), shape(args[0], env));
+                    }
+                }
+            }
+            leaf(e)
+        }
+        _ => leaf(e),
+    }
+}
+
 fn sx_list_s<I: IntoIterator<Item = String>>(head: &str, it: I) -> String {
     format!("( {head} {} )", sx_list(it))
 }
@@ -801,6 +848,8 @@ pub fn run(cfg: &RunCfg) -> Report {
     let mut meta = Vec::new();
     let mut link_reqs = Vec::new();
     let mut link_meta: Vec<(usize, String)> = Vec::new();
+    let mut render_reqs = Vec::new();
+    let mut render_meta: Vec<(usize, String)> = Vec::new();
     for (idx, outcome) in batch_compile(cases.len(), 100, &render, &rcfg) {
         match outcome {
             Outcome::Ok { generated, warnings } => {
@@ -832,6 +881,10 @@ pub fn run(cfg: &RunCfg) -> Report {
                             if let (Some(ty), Some(val)) = (parts.next(), parts.next()) {
                                 link_reqs.push(format!("c07link {ty} {val} {v}"));
                                 link_meta.push((i, v.clone()));
+                                let site = match c.site { Site::Const(_) => "assign", Site::DefaultFn(_) => "default" };
+                                let sh = shape(e, &env);
+                                render_reqs.push(format!("c07render {site} {ty} {val} {sh}"));
+                                render_meta.push((i, sh));
                             }
                             reqs.push(format!("c07 {spec_src} {v}"));
                             meta.push((i, v));
@@ -840,6 +893,15 @@ pub fn run(cfg: &RunCfg) -> Report {
                             let key = match &c.site { Site::Const(n) => n.to_lowercase(), Site::DefaultFn(n) => n.split('_').next().unwrap_or("").to_uppercase() };
                             // composite values: the generator's and the linker's refusals do not name the definition (C10 matches them by count)
                             let anonymous_refusal = c.kind.starts_with("composite") && warnings.iter().any(|w| w.contains("A type name is needed") || w.contains("LinkerError") || w.contains("unlinked"));
+                            if anonymous_refusal {
+                                let mut parts = c.src.split(LINK_SEP);
+                                let _ = parts.next();
+                                if let (Some(ty), Some(val)) = (parts.next(), parts.next()) {
+                                    let site = match c.site { Site::Const(_) => "assign", Site::DefaultFn(_) => "default" };
+                                    render_reqs.push(format!("c07render {site} {ty} {val} refused"));
+                                    render_meta.push((i, "refused".into()));
+                                }
+                            }
                             if anonymous_refusal || warnings.iter().any(|w| w.to_lowercase().contains(&key.to_lowercase()) || w.contains("currently unsupported") || w.contains("Time value")) {
                                 rep.count(&format!("not-judged:dropped-with-warning:{}", c.kind));
                             } else {
@@ -952,6 +1014,21 @@ pub fn run(cfg: &RunCfg) -> Report {
                     rep.harness_errors.push(format!("bad c07link request for {}: {}", c.asn, c.src));
                 } else if a != "model=agree" {
                     rep.disagree(json!({"case": {"asn1": c.asn, "src": c.src, "observed": v, "kind": c.kind}, "model": a, "model_of": "Link.Values.link (link_with_type / link_struct_like / link_array_like)"}));
+                }
+            }
+        }
+        Err(e) => rep.harness_errors.push(e),
+    }
+    // the model of the generator's composite arms on the same cases: the expression it builds = the initialiser's tree
+    match run_driver(&render_reqs) {
+        Ok(ans) => {
+            for (a, (i, sh)) in ans.iter().zip(render_meta.iter()) {
+                let c = &cases[*i];
+                rep.count(&format!("render-model:{}", a.split(':').next().unwrap_or(a)));
+                if a == "bad-request" {
+                    rep.harness_errors.push(format!("bad c07render request for {}: {} {}", c.asn, c.src, sh));
+                } else if a.starts_with("model=differ") {
+                    rep.disagree(json!({"case": {"asn1": c.asn, "src": c.src, "observed": sh, "kind": c.kind}, "model": a, "model_of": "Gen.Values.render (value_to_tokens, composite arms)"}));
                 }
             }
         }
